@@ -141,6 +141,7 @@ func RunC09(st *simcore.Stream, tier, leg string, logOn bool, res *simcore.Resul
 		w.Finished = true
 	})
 	fillStats(res, w)
+	dropClasses(res, c11Classes...)
 	res.Nontrivial = res.Probes["tell-within-mtu-arrived"]+res.Probes["ask-within-mtu-ok"] > 0 && res.Probes["above-mtu-tried"] > 0
 	var sample []string
 	for _, e := range w.Led.Entries {
